@@ -394,7 +394,7 @@ pub(crate) fn add_int_permutation<W, R, T>(
             if k > n{
                 return xerr(ManagedXError::new("k cannot be greater than n", rt)?);
             }
-            let Some(total) = (n-k+1..=n).try_fold(1usize, |acc, f| acc.checked_mul(f)) else { return xerr(ManagedXError::new("too many permutations", rt)?); };
+            let Some(total) = (n-k..n).try_fold(1usize, |acc, f| acc.checked_mul(f+1)) else { return xerr(ManagedXError::new("too many permutations", rt)?); };
             if i >= total{
                 return xerr(ManagedXError::new("i too large", rt)?);
             }
